@@ -16,7 +16,7 @@ def mon_pubrel_answered(tr, sc):
 
 
 def run(ctx):
-    mon = lambda tr, sc: SC.mon_sanity(tr) + [h for h in SC.mon_inbound(tr) if h[0] in ("inbound:second-delivery", "inbound:ack-without-return", "inbound:never-acknowledged", "inbound:lost")]
+    mon = lambda tr, sc: SC.mon_sanity(tr) + [h for h in SC.mon_inbound(tr) if h[0] in ("inbound:second-delivery", "inbound:ack-without-return", "inbound:never-acknowledged", "inbound:lost", "inbound:pubcomp-before-release")]
     v, stats, hist, samples, nd = SC.run_property(ctx, MODULE, PROFILE, 250, 4000, [mon], keep, length=(10, 34))
     return SC.finish(ctx, v, stats, hist, samples, nd,
                      "inbound QoS 2 biased streams with broker retransmissions (DUP), PUBREL repeats and PUBRELs for unknown identifiers, "
